@@ -39,12 +39,14 @@ LEVEL = "exploration"
 NUMBA_THREADS = {"quick": 1, "thorough": 1}
 REPLAY_IN_RUN = True   # replays need the JIT-compiled stack of their object kind: done inside the shard that owns that kind
 
-RULE = ("case = one comparison (SUT answer vs fresh-twin answer, or value before save vs value after load) made after one operation of a "
-        "generated history ([op,args] lists from Hypothesis state machines over small argument pools, plus every sequence up to a "
-        "fixed length over reduced alphabets); non-trivial = the same query was asked earlier in the history AND at least one "
-        "mutation of an input of that query happened in between (period set, correct, degree set, other-options call, near-repeat "
-        "call with one argument changed, load), or the comparison is a value read before save vs after load; distinct by "
-        "(object kind, query+arguments, the mutations in between / the load mechanism and state class)")
+RULE = ("case = one comparison (SUT answer vs fresh-twin answer, or value read before save vs after load, or end state vs the independent "
+        "reference flow) made after one operation of a generated history; histories are [op,args] lists from Hypothesis state machines over "
+        "small argument pools (random walks) plus EVERY sequence up to length 2-4 over reduced alphabets (itertools.product; System, "
+        "LibrationPoint, CenterManifold, PeriodicOrbit from the analytic guess / from a corrected state / period alphabet); non-trivial = the "
+        "same query was asked earlier in the history AND at least one mutation of an input of that query happened in between (period set, "
+        "correct, degree set, hamiltonian of another degree, stability with other options, propagation with other arguments, objects of "
+        "another mu created/dropped, load), or the comparison is before-save vs after-load; distinct by (object kind, query+arguments, "
+        "the mutations in between / the load mechanism and state class)")
 ASSUMPTIONS = [
     "logical state = constructor arguments + values set through public setters + corrected initial state and period + last requested propagation; "
     "reads (hamiltonian(d), compute, properties) are not part of it",
@@ -276,6 +278,7 @@ class Harness:
         self.history = [["init", init]]
         self.qlog = {}
         self.objs = {}
+        self.loaded = False      # the SUT is an object that came out of a load
         self.setup(init)
 
     # -- to be provided by subclasses
@@ -318,13 +321,13 @@ class Harness:
         self.fail("%s:%s:%s:%s" % (self.kind, qkey[0], what, context), d)
         return False
 
-    def alias(self, quantity, obj, op):
+    def alias(self, quantity, obj, op, context=None):
         """Distinct quantities read from one service cache must not be the same object."""
         if not _is_container(obj):
             return True
         for q, o in self.objs.items():
             if o is obj and q != quantity:
-                self.fail("%s:%s:alias:%s" % (self.kind, op, q[0]),
+                self.fail("%s:%s:alias:%s" % (self.kind, op, context or q[0]),
                           "the object returned for %s is the object returned earlier for %s" % (quantity, q))
                 return False
         self.objs[quantity] = obj
@@ -352,8 +355,10 @@ class Harness:
         for r in reads:
             name = r if isinstance(r, str) else str(r[0])
             after = attempt(lambda: plain(clone, r))
-            if not self.observe(("roundtrip", mech, name), after, before[r], name, mech,
-                                nt=(self.kind, "roundtrip", mech, name) + tuple(sclass)):
+            # root-cause context: plain load or load_inplace; object saved for the first time or itself a loaded object
+            ctxt = "%s:%s" % ("inplace" if mech == "inplace" else "load", "reloaded" if self.loaded else "first-save")
+            if not self.observe(("roundtrip", mech, name), after, before[r], name, ctxt,
+                                nt=(self.kind, "roundtrip", mech, name, self.loaded) + tuple(sclass)):
                 return None
         return clone
 
@@ -362,6 +367,7 @@ class Harness:
         self.history = [["init", init]]
         self.qlog = {}
         self.objs = {}
+        self.loaded = False
         self.setup(init)
 
 
@@ -506,6 +512,7 @@ class SystemHarness(Harness):
                                self._plain, lambda: _clone_system(self.sut, mech, self.mu_i))
         if clone is not None and cont:
             self.sut = clone
+            self.loaded = True
             self.asked = []
             self.objs = {}
             self.tag = "load"
@@ -616,6 +623,7 @@ class LibrationHarness(Harness):
         clone = self.roundtrip(mech, reads, checked, plain, lambda: _clone_lib(self.sut, mech, self.mu_i, self.idx), (self.tag,))
         if clone is not None and cont:
             self.sut = clone
+            self.loaded = True
             self.system = clone.system
             self.objs = {}
             self.stab_requests = set()
@@ -720,6 +728,7 @@ class CMHarness(Harness):
         if clone is None:
             return
         self.sut = clone
+        self.loaded = True
         self.objs = {}
         if self.tag != "after-hamiltonian-other-degree":
             self.tag = "load"
@@ -887,7 +896,7 @@ class OrbitHarness(Harness):
             ctxt = "after-computed-propagate:" + self.tag
         if not self.observe(("trajectory",), rs, rt, "value", ctxt):
             return FAILED
-        if self.model["last_prop"] is not None and not self.alias(("propagate", tuple(self.model["last_prop"])), rs, "trajectory"):
+        if self.model["last_prop"] is not None and not self.alias(("propagate", tuple(self.model["last_prop"])), rs, "trajectory", ctxt):
             return FAILED
         return rs
 
@@ -909,6 +918,7 @@ class OrbitHarness(Harness):
                                _orbit_read, lambda: _clone_orbit(self, mech), sclass)
         if clone is not None and cont:
             self.sut = clone
+            self.loaded = True
             self.objs = {}
             self.corrects = []
             self.props_done = set()
@@ -1051,6 +1061,8 @@ class CrossHarness(Harness):
             err = float(np.max(np.abs(xT - x)))
             tol = 100.0 * (1e-12 + 1e-13) * nM      # Newton tol + oracle rtol, amplified by the monodromy norm
             self.ctx.case(nontrivial=("cross", "closure", s["mu_i"], ctxt), cls="cross:orbit-closure")
+            worst = self.ctx.extra.setdefault("cross_closure_err_over_tol_max_per_shard", [0.0])
+            worst[0] = max(worst[0], err / tol)
             if not err <= tol:
                 self.fail("cross:orbit:closure:" + ctxt, "corrected orbit of mu=%g does not close under the reference flow: %.3g (tol %.3g)" % (mu, err, tol))
         else:
@@ -1060,6 +1072,8 @@ class CrossHarness(Harness):
                 return self.fail("cross:orbit:monodromy-raises:%s" % got.name, repr(got))
             err = float(np.max(np.abs(got - M)))
             tol = 100.0 * (1e-12 + 1e-13) * nM * nM  # both integrators at rtol ~1e-12, error growth ~ |M| on a value of size |M|
+            worst = self.ctx.extra.setdefault("cross_monodromy_err_over_tol_max_per_shard", [0.0])
+            worst[0] = max(worst[0], err / tol)
             if not err <= tol:
                 self.fail("cross:orbit:monodromy:" + ctxt, "monodromy of the mu=%g orbit differs from the reference STM by %.3g (tol %.3g, |M|=%.3g)"
                           % (mu, err, tol, nM))
@@ -1258,7 +1272,7 @@ def alphabet(name, tier, fam=None):
     if name == "system":
         letters = [["propagate", [0, 0, 0, 0, 1]], ["propagate", [0, 0, 0, 1, 1]], ["propagate", [0, 0, 0, 0, -1]]]     # base, other order, backward
         if not q:
-            letters += [["propagate", [0, 0, 1, 0, 1]], ["propagate", [0, 1, 0, 0, 1]], ["roundtrip", ["pickle", True]]]
+            letters += [["propagate", [0, 0, 1, 0, 1]], ["roundtrip", ["pickle", True]]]      # other steps, save/load and continue on the loaded object
         return ("system", [{"mu_i": 0, "kind": "fixed"}], letters, 2 if q else 3)
     if name == "orbit-guess":
         return ("orbit", [{"family": fam, "mu_i": 0, "idx": 1, "x": None, "T": None, "last_prop": None}],
@@ -1269,6 +1283,11 @@ def alphabet(name, tier, fam=None):
         return ("orbit", [{"family": fam, "mu_i": 0, "idx": 1, "x": x, "T": T, "last_prop": None}],
                 [["propagate", [0]], ["propagate", [1]], ["propagate", [2]], ["trajectory", []], ["read", ["monodromy"]]]
                 + ([] if q else [["set_period", [1]], ["correct", [0]]]), 4)
+    if name == "orbit-period":
+        x, T = corrected_state(fam)
+        return ("orbit", [{"family": fam, "mu_i": 0, "idx": 1, "x": x, "T": T, "last_prop": None}],
+                [["set_period", [1]], ["set_period", [2]], ["read", ["monodromy"]], ["read", ["stability_indices"]], ["propagate", [0]],
+                 ["trajectory", []]] + ([] if q else [["set_period", [3]], ["roundtrip", ["deepcopy", False]]]), 3)
     raise HarnessError(name)
 
 
@@ -1348,9 +1367,10 @@ def _role(ctx):
 
 
 def _replay_regressions(ctx, role):
-    """Stored regression histories are replayed by the first shard whose role compiles that kind of object."""
+    """Stored regression histories are replayed by the shards whose role compiles that kind of object."""
     rdir = os.path.join(ROOT, "replays", PROPERTY)
     n = 0
+    seen = {}
     if os.path.isdir(rdir):
         roles = [ROLES[ctx.tier][s % len(ROLES[ctx.tier])] for s in range(ctx.nshards)]
         for fn in sorted(os.listdir(rdir)):
@@ -1360,7 +1380,8 @@ def _replay_regressions(ctx, role):
                 p = json.load(f)["payload"]
             kind = p.get("kind")
             owners = [s for s, r in enumerate(roles) if ROLE_KINDS[r] == kind] or [0]
-            if owners[0] == ctx.shard:
+            seen[kind] = seen.get(kind, 0) + 1
+            if owners[seen[kind] % len(owners)] == ctx.shard:      # round-robin over the shards that compile this kind anyway
                 replay(ctx, p)
                 n += 1
     ctx.extra["regression_replays_in_shards"] = n
@@ -1391,7 +1412,7 @@ def run(ctx):
     role = _role(ctx)
     q = ctx.tier == "quick"
     _BUDGET.update({"orbit_cont": (1 if role == "orbit-halo" else 0) if q else 4, "system_cont": 1 if q else 6,
-                    "cross_create": 6 if q else 60, "cross_orbit": 0})
+                    "cross_create": 6 if q else 36, "cross_orbit": 0})
     _replay_regressions(ctx, role)
     _mark(ctx, "import+replays")
     roles = [ROLES[ctx.tier][s % len(ROLES[ctx.tier])] for s in range(ctx.nshards)]
@@ -1407,13 +1428,15 @@ def run(ctx):
         _mark(ctx, "orbit-guess enumeration")
         enumerate_sequences(ctx, "orbit-corrected", rank, nroles[role], fam)
         _mark(ctx, "orbit-corrected enumeration")
+        enumerate_sequences(ctx, "orbit-period", rank, nroles[role], fam)
+        _mark(ctx, "orbit-period enumeration")
         walk(ctx, "orbit", "orbit-" + fam, st.just({"family": fam, "mu_i": 0, "idx": 1, "x": None, "T": None, "last_prop": None}),
-             ctx.scale(10, 220), ctx.scale(10, 25))
+             ctx.scale(10, 120), ctx.scale(10, 25))
     elif role == "cm":
         if rank == 0:
             _discrimination(ctx, "cm")
         walk(ctx, "cm", "cm", st.fixed_dictionaries({"mu_i": st.sampled_from([0, 0, 1]), "idx": st.sampled_from([1, 2]), "deg": st.sampled_from(CM_DEG)}),
-             ctx.scale(16, 400), ctx.scale(10, 25))
+             ctx.scale(16, 200), ctx.scale(10, 25))
         _mark(ctx, "cm walk")
         enumerate_sequences(ctx, "cm", rank, nroles["cm"] + nroles.get("cm-x", 0))
     elif role == "cm-x":
@@ -1423,7 +1446,7 @@ def run(ctx):
     elif role == "system":
         kinds = ["fixed", "fixed", "fixed", "adaptive"] if q else ["fixed", "adaptive"]
         walk(ctx, "system", "system", st.fixed_dictionaries({"mu_i": st.sampled_from([0, 1]), "kind": st.sampled_from(kinds)}),
-             ctx.scale(5, 60), ctx.scale(8, 20))
+             ctx.scale(5, 36), ctx.scale(8, 20))
     elif role == "system-x":
         # every sequence needs a fresh System, i.e. one re-specialisation of the fixed-step kernel (~2 s)
         enumerate_sequences(ctx, "system", rank, nroles["system-x"])
@@ -1432,7 +1455,7 @@ def run(ctx):
         _mark(ctx, "libration enumeration")
         walk(ctx, "libration", "libration", lib_init, ctx.scale(40, 600), ctx.scale(10, 25))
     elif role == "cross-sys":
-        walk(ctx, "cross", "cross", st.just({"slots": {"A": 0, "B": 1}}), ctx.scale(5, 40), ctx.scale(8, 16))
+        walk(ctx, "cross", "cross", st.just({"slots": {"A": 0, "B": 1}}), ctx.scale(5, 24), ctx.scale(8, 16))
     elif role == "cross-orbit":
         before = set(ctx.verdicts)
         for h in CROSS_ORBIT_SCRIPT[:ctx.scale(1, 2)]:
